@@ -135,6 +135,31 @@ def run(ctx):
             else:
                 r3.ok(key, loc=fn.loc(b), detail=cls)
 
+    # premise of the `same-slot` exception for restart: the declared initial value a restart re-stores blindly
+    # (GlobalInitValue::Value) is the value the builder stored, i.e. read back from the slot after coercion,
+    # or itself a coerced / default value
+    nseed = 0
+    for k in sorted(fx.fns):
+        if not k.startswith(RT):
+            continue
+        fn = F(fx.fns[k])
+        for b in fn.g:
+            for st in fn.bbs[b]['s']:
+                if st[0] == 'A' and st[2][0] == 'agg' and re.search(r'GlobalInitValue::Value$', st[2][1]) and st[2][2]:
+                    nseed += 1
+                    r3.saw()
+                    short = k[len(RT):]
+                    oo = operand_origins(fn, st[2][2][0], extra_pass=lambda n: re.search(r'Clone>::clone$|::clone$|::cloned$', n) is not None)
+                    calls = {o[2] for o in oo if o[0] == 'call'}
+                    key = 'restart-seed|%s' % short
+                    if any(re.search(r'VariableStorage::get_global$', c) for c in calls) or any(COERCERS.search(c) or DEFAULTS.search(c) for c in calls):
+                        r3.ok(key, loc=fn.loc(b), detail='read back from the slot / coerced')
+                    else:
+                        r3.bad(key, 'the declared initial value registered for restart (GlobalInitValue::Value) is not the coerced value the builder stored (origins: %s): restart stores it without coercion, so after a restart the global holds a value of another type' % (
+                            sorted(c.split('::')[-1] for c in calls)[:4] or sorted(str(o[:2]) for o in oo)[:4]), loc=fn.loc(b))
+    if nseed == 0:
+        r3.bad('anchor-missing|restart-seed', 'no construction of GlobalInitValue::Value found: the restart seeding changed shape')
+
 
 def _r1(ctx):
     fx = ctx.fx
